@@ -118,13 +118,22 @@ def run_deferred(spec):
     try:
         _SCRATCH["n"] += 1
         mod = f"vdefmod_{os.getpid()}_{_SCRATCH['n']}_{spec['n']}"
-        with open(os.path.join(d, mod + ".py"), "w") as fh:
-            fh.write("class C:\n    pass\n\nclass D(C):\n    pass\n\nclass E:\n    pass\n")
+        body = "class C:\n    pass\n\nclass D(C):\n    pass\n\nclass E:\n    pass\n"
+        ref_prefix = mod
+        if spec.get("layout") == "package":
+            os.makedirs(os.path.join(d, mod))
+            open(os.path.join(d, mod, "__init__.py"), "w").close()
+            with open(os.path.join(d, mod, "zoo.py"), "w") as fh:
+                fh.write(body)
+            ref_prefix = mod + ".zoo"
+        else:
+            with open(os.path.join(d, mod + ".py"), "w") as fh:
+                fh.write(body)
         sys.path.insert(0, d)
         try:
             from ovld import Deferred
 
-            ann = Deferred[f"{mod}.{spec['which']}"]
+            ann = Deferred[f"{ref_prefix}.{spec['which']}"]
 
             def hit(x):
                 return "hit"
@@ -144,7 +153,9 @@ def run_deferred(spec):
                     res.fail(f"Deferred[{spec['which']}] before import: f({v!r}) -> {o.brief()}", "C13:deferred")
             if mod in sys.modules:
                 res.fail("Deferred imported the module before any instance of it was seen", "C13:deferred-imports")
-            m = __import__(mod)
+            import importlib
+
+            m = importlib.import_module(ref_prefix)
             want = {"C": {"C": "hit", "D": "hit", "E": "fallback"}, "D": {"C": "fallback", "D": "hit", "E": "fallback"}}[
                 spec["which"]]
             for cname, exp in want.items():
@@ -156,11 +167,12 @@ def run_deferred(spec):
                 if sc.kind != "ok" or sc.value is not (exp == "hit"):
                     res.fail(f"subclasscheck({cname}, Deferred[{spec['which']}]) -> {sc.brief()}", "C13:deferred")
             res.nontrivial = True
-            res.key = f"deferred:{spec['which']}:{spec['n']}"
+            res.key = f"deferred:{spec['which']}:{spec['n']}:{spec.get('layout')}"
             res.label("deferred")
         finally:
             sys.path.remove(d)
-            sys.modules.pop(mod, None)
+            for k in [k for k in sys.modules if k == mod or k.startswith(mod + ".")]:
+                sys.modules.pop(k, None)
     finally:
         if own:
             shutil.rmtree(d, ignore_errors=True)
@@ -189,7 +201,9 @@ def law_universe():
     gens = []
     for a in cls[:5] + [["obj"]]:
         gens += [["gen", "list", [a]], ["gen", "Sequence", [a]]]
-    gens += [["gen", "dict", [["cls", "K0"], ["cls", "int"]]], ["gen", "dict", [["cls", "K1"], ["cls", "bool"]]],
+    gens += [["gen", "tuple", [["cls", "K0"]]], ["gen", "tuple", [["cls", "K1"]]], ["gen", "tuple", [["cls", "K1"], ["cls", "int"]]],
+             ["gen", "tuple", [["cls", "K0"], ["cls", "int"]]], ["gen", "tuple", [["cls", "K1"], ["cls", "bool"], ["cls", "int"]]],
+             ["gen", "dict", [["cls", "K0"], ["cls", "int"]]], ["gen", "dict", [["cls", "K1"], ["cls", "bool"]]],
              ["gen", "list", [["gen", "list", [["cls", "K1"]]]]], ["gen", "list", [["gen", "list", [["cls", "K0"]]]]]]
     comb = []
     for a, b in itertools.combinations(cls[:5], 2):
@@ -229,9 +243,9 @@ def run_law(spec):
             if sc(0, 1) is not issubclass(ca, cb):
                 res.fail(f"subclasscheck({a}, {b}) = {sc(0, 1)} but issubclass says {issubclass(ca, cb)}",
                          "C13:law:classes")
-        if a[0] == "gen" and b[0] == "gen" and len(a[2]) == len(b[2]):
+        if a[0] == "gen" and b[0] == "gen":
             oa, ob = lenv()[a[1]], lenv()[b[1]]
-            exp = issubclass(oa, ob) and all(
+            exp = issubclass(oa, ob) and len(a[2]) == len(b[2]) and all(
                 capture(subclasscheck, lbuild(x), lbuild(y)).value is True for x, y in zip(a[2], b[2]))
             res.label("law:generic-covariance")
             if sc(0, 1) is not exp:
@@ -287,8 +301,8 @@ class Check:
             d = tempfile.mkdtemp(prefix="ovld_c13_")
             _SCRATCH["dir"] = d
             try:
-                specs = [{"kind": "deferred", "which": w, "n": task["seed"] * 1000 + i}
-                         for i in range(task["n"]) for w in ("C", "D")]
+                specs = [{"kind": "deferred", "which": w, "n": task["seed"] * 1000 + i, "layout": lay}
+                         for i in range(task["n"]) for w in ("C", "D") for lay in ("module", "package")]
                 R.run_enumerated(st, specs, run_case, sigs)
             finally:
                 _SCRATCH["dir"] = None
